@@ -382,3 +382,81 @@ def njob_circumstance(res, njob):
                 return c["label"], "while-a-command-is-blocked-in-amend"
             return c["label"], "all-commands-active"
     return None
+
+
+# ---------------------------------------------------------------------------------------------
+# B4: the hash-check bypass (CHECKING jobs) against resources and holds, on a second build
+# ---------------------------------------------------------------------------------------------
+
+
+def scenario_checking(kind):
+    """Two builds. The first one builds X and Y (each gpu:1 of 1; for kind 'hold' declared inside a hold
+    block of the plan that is kept open until the gate 'mid'). Then both inputs change (and, for 'hold',
+    the plan's own text, so that it executes again and opens the hold again). In the second build X and
+    Y have a stored hash: they are dispatched for a hash check without looking at resources or holds
+    (SELECT_NEXT_STEP: `_has_hash OR NOT EXISTS(RESOURCE_UNAVAILABLE)`, `_safe_ignoring_hold`), the
+    check fails, and only then the full guard applies: their commands must still run one at a time
+    (resource) / after the release (hold).
+    Returns (Project, avail, declared_in, history)."""
+    from . import e3
+    sources = {"in1.txt": "1\n", "in2.txt": "2\n"}
+
+    def plan(extra):
+        acts = [{"op": "static", "paths": ["in1.txt", "in2.txt"]}]
+        if kind == "hold":
+            acts.append({"op": "hold"})
+        acts += [{"op": "step", "label": "X", "inp": ["in1.txt"], "out": ["x.txt"], "resources": {"gpu": 1}},
+                 {"op": "step", "label": "Y", "inp": ["in2.txt"], "out": ["y.txt"], "resources": {"gpu": 1}}]
+        if kind == "hold":
+            acts += [{"op": "gate", "name": "mid"}, {"op": "release"}]
+        return acts + extra
+    prog = {"scripts": {"plan.py": plan([])}, "commands": {"X": [{"op": "auto"}], "Y": [{"op": "auto"}]}}
+    edits = [{"op": "write", "path": "in1.txt", "content": "1 changed\n"},
+             {"op": "write", "path": "in2.txt", "content": "2 changed\n"}]
+    if kind == "hold":
+        edits.append({"op": "script", "path": "plan.py", "actions": plan([{"op": "print", "text": "again"}])})
+    return (e3.Project(sources=sources, program=prog), {"gpu": 1},
+            {"X": "./plan.py", "Y": "./plan.py"}, [{"edits": edits}])
+
+
+def gen_checking_history(rng):
+    """Random variant of scenario_checking: 3-6 steps with one static input each, resources from a small
+    pool, some declared inside a hold block of the plan (kept open until a gate); second build after a
+    random subset of the inputs (and possibly the plan) changed."""
+    from . import e3
+    n = rng.randint(3, 6)
+    avail = {"cpu": rng.choice([1, 2]), "gpu": 1}
+    sources = {f"in{i}.txt": f"{i}\n" for i in range(n)}
+    hold_from = rng.choice([None, None, 0, 1, 2])
+    steps = []
+    for i in range(n):
+        r = rng.random()
+        res = {} if r < 0.25 else {rng.choice(["cpu", "gpu"]): 1}
+        steps.append({"op": "step", "label": f"S{i}", "inp": [f"in{i}.txt"], "out": [f"o{i}.txt"], "resources": res})
+
+    def plan(extra):
+        acts = [{"op": "static", "paths": sorted(sources)}]
+        for i, st in enumerate(steps):
+            if hold_from is not None and i == hold_from:
+                acts.append({"op": "hold"})
+            acts.append(st)
+        if hold_from is not None and hold_from < n:
+            acts += [{"op": "gate", "name": "mid"}, {"op": "release"}]
+        return acts + extra
+    prog = {"scripts": {"plan.py": plan([])}, "commands": {f"S{i}": [{"op": "auto"}] for i in range(n)}}
+    changed = [i for i in range(n) if rng.random() < 0.7] or [0]
+    edits = [{"op": "write", "path": f"in{i}.txt", "content": f"{i} changed\n"} for i in changed]
+    if hold_from is not None and rng.random() < 0.8:
+        edits.append({"op": "script", "path": "plan.py", "actions": plan([{"op": "print", "text": "again"}])})
+    return (e3.Project(sources=sources, program=prog), avail,
+            {f"S{i}": "./plan.py" for i in range(n)}, [{"edits": edits}])
+
+
+def run_checking(proj, avail, history, njob, schedule, timeout=90):
+    """Both builds on the real serve() (restart mode); returns [BuildResult, BuildResult] and the final
+    program (for the annotation of define_step calls)."""
+    from . import e3
+    results = e3.run_history(proj, history, mode="restart", njob=njob,
+                             resources=",".join(f"{k}:{v}" for k, v in avail.items()) or None,
+                             schedule=schedule, timeout=timeout, keep_going=True)
+    return results, e3.final_project(proj, history).program
